@@ -353,4 +353,28 @@ theorem selection_deciders_sound (fit : Coord → F) (key : Coord → Bool × F)
     (membersOKB p ret = true → MembersOK p ret) :=
   ⟨tournamentOKB_sound _ _ _ _ _, alpsSelOKB_sound _ _ _, membersOKB_sound _ _⟩
 
+/-! ### non-vacuity of the run-level hypotheses -/
+
+/-- a concrete configuration, state and one-iteration model run: the invariant holds before,
+    the loop hypotheses are satisfiable, the state after one generation is different and valid -/
+def exCfg : Cfg Ind Int := ⟨.std, true, Ind.fit, Ind.valid⟩
+def exSt : St Ind Int :=
+  ⟨⟨[[⟨-5, 0, 11, true⟩, ⟨-3, 0, 12, true⟩, ⟨-9, 0, 13, true⟩]], [3]⟩, ⟨⟨-5, 0, 11, true⟩, -5, 0, 0⟩⟩
+def exLoop : LoopCtx Ind Int :=
+  ⟨exCfg, ⟨⟨3, 2⟩, fun n => ⟨0, 0, n, true⟩, fun x => { x with age := x.age + 1 }⟩, Ind.age, fun _ => 3⟩
+def exStep : StepIn Ind := ⟨[(0, 1), (0, 2)], ⟨-1, 0, 14, true⟩, 0, false, [], []⟩
+
+example : runInvB exCfg [3] exSt = true := by decide
+example : LoopOK exLoop := ⟨fun _ => rfl, fun _ h => h⟩
+example : (runModel exLoop exSt [([exStep], ⟨[], [], none, []⟩)]) =
+    ⟨⟨[[⟨-5, 0, 11, true⟩, ⟨-3, 0, 12, true⟩, ⟨-1, 0, 14, true⟩]], [3]⟩, ⟨⟨-1, 0, 14, true⟩, -1, 0, 1⟩⟩ := by
+  decide
+example : transB exCfg (.repl [(0, 2)] ⟨-1, 0, 14, true⟩) exSt
+    ⟨⟨[[⟨-5, 0, 11, true⟩, ⟨-3, 0, 12, true⟩, ⟨-1, 0, 14, true⟩]], [3]⟩, ⟨⟨-1, 0, 14, true⟩, -1, 0, 0⟩⟩ = true := by
+  decide
+/-- the decider rejects the overwrite of an equally fit member under elitism -/
+example : transB exCfg (.repl [(0, 2)] ⟨-9, 0, 14, true⟩) exSt
+    ⟨⟨[[⟨-5, 0, 11, true⟩, ⟨-3, 0, 12, true⟩, ⟨-9, 0, 14, true⟩]], [3]⟩, exSt.sum⟩ = false := by
+  decide
+
 end Vita.C06
